@@ -834,10 +834,20 @@ class HexaryTrie:
         scratch_db = ScratchDB(self.db)
         with scratch_db.batch_commit(do_deletes=self.is_pruning):
             Trie = type(self)
+            # The batch works on its own copy of the reference counts, so that an
+            # aborted batch leaves the counts of this trie untouched
+            if self._ref_count is None:
+                batch_ref_count = None
+            else:
+                batch_ref_count = self._ref_count.copy()
             memory_trie = Trie(
-                scratch_db, self.root_hash, prune=True, ref_count=self._ref_count
+                scratch_db, self.root_hash, prune=True, ref_count=batch_ref_count
             )
             yield memory_trie
+
+        if self._ref_count is not None:
+            # The batch was committed, adopt its reference counts
+            self._ref_count = memory_trie._ref_count
 
         if self.root_hash != memory_trie.root_hash:
             try:
